@@ -221,8 +221,16 @@ func (f *FailoverOf[V]) Get(
 					"key", key)
 			}
 
-			if !f.config.FailHard && !errors.Is(err, ErrNotFound) {
-				return val, nil
+			if !f.config.FailHard {
+				if err == nil {
+					return val, nil // Stale value was refreshed above.
+				}
+
+				// Value that has expired longer than MaxStaleness ago is still served if update fails.
+				var errExpired ErrWithExpiredItemOf[V]
+				if errors.As(err, &errExpired) {
+					return errExpired.Value(), nil
+				}
 			}
 		}
 
